@@ -222,7 +222,7 @@ def rule_N6(ctx: Ctx) -> None:
     ctx.stat("element_loading_fns", n)
     lt = ctx.index.func(f"{MT}._load_tokenizer_element")
     t = X.U(lt.node)
-    ok = "key: str = namespace.key" in t and "data[key]['__format__']" in t and "format.split('(')[0]" in t and "getattr(namespace, cls_name)" in t and "return cls(**kwargs)" in t
+    ok = "key = namespace.key" in t and "data[key]['__format__']" in t and "format.split('(')[0]" in t and "getattr(namespace, cls_name)" in t and "return cls(**kwargs)" in t
     ctx.judge(lt, ok, {}, "_load_tokenizer_element: class name = text before '(' of data[key]['__format__'], looked up in the namespace, constructed from the remaining keys")
 
 
